@@ -1,4 +1,5 @@
 import TsVerif.C12.Judge
+import TsVerif.C12.Levels
 import TsVerif.C01.Props
 /-!
 # C12 — Re-parsing after a small edit reuses the unchanged parts of the old tree
@@ -22,8 +23,13 @@ is bounded by the edit, on the model of `ts_subtree_edit` that C10 ties to the c
   node at most `(old_end − start) + λ + 2` can be rebuilt (children of positive width, look-ahead
   ≤ λ), independent of the number of children; together with `balanced` (judged on the dumps:
   repeat chains are logarithmically deep) the marked set of a one-token edit is O(depth) nodes.
-  OPEN: the global count `marked ≤ depth · (w + λ + 2)` (needs the level-wise tiling argument and
-  an assumption on zero-width nodes such as the EOF leaf).
+  Global: `level_reach_bound`, `reach_total_bound`, `rebuilt_in_level`,
+  `marked_total_bound_partial` — for byte-tiling trees (`tiles`, decidable, an OBLIGATION evaluated
+  on every real tree) the rebuilt nodes are among at most `(height+1)·(w+λ+2) + Z` nodes, `Z` =
+  zero-width nodes (EOF leaf, zero-width external tokens, empty reductions — counted, not assumed
+  away); the bound itself is evaluated on the real trees (`bound_ok`).  The FULL statement about
+  the re-parse (lexer calls + created nodes) is kept as OPEN in the doc comment of
+  `marked_total_bound_partial`.
 * "unchanged parts are shared" — `unmarked_shared`: every subtree of the edited tree without
   `has_changes` IS the subtree at the same path of the tree before the edit (same value; in the C
   code the same pointer, which `marksOk` checks on the dumps by comparing addresses).
@@ -330,6 +336,72 @@ theorem rebuilt_kid_reaches (d : NodeData) (ks : List Tree) (e : Edit) (j : Nat)
   simp only [reaches, Bool.and_eq_true, decide_eq_true_eq]
   exact ⟨h2, h1⟩
 
+/-! ## The global bound: marked nodes ≤ (height + 1) · (edit width + λ + 2) + zero-width nodes -/
+
+/-- `level_reach_bound`: in a byte-tiling tree, at every depth at most
+`(E − S) + λ + 2` nodes of positive width reach the window `[S, E]` (`λ` = largest
+`lookahead_bytes`); each zero-width node of that depth (EOF leaf, zero-width external tokens,
+empty reductions) may add one. -/
+theorem level_reach_bound (t : Tree) (d S E : Nat) (hSE : S ≤ E) (ht : tiles t = true) :
+    (reachL (levelList t 0 d) S E).length ≤ (E - S) + maxLa t + 2 + zerosL (levelList t 0 d) := by
+  have h := (reach_chain_bound (maxLa t) S E hSE (levelList t 0 d) 0 _ (level_chain t 0 d ht)
+    (fun x hx => level_la t 0 d x hx)).2 (by omega)
+  omega
+
+/-- `reach_total_bound`: summed over the depths `0 … h`. -/
+theorem reach_total_bound (t : Tree) (S E : Nat) (hSE : S ≤ E) (ht : tiles t = true) :
+    ∀ h, reachTotal t S E h ≤ (h + 1) * ((E - S) + maxLa t + 2) + zerosTotal t h
+  | 0 => by
+    have := level_reach_bound t 0 S E hSE ht
+    simp only [reachTotal, zerosTotal]; omega
+  | h + 1 => by
+    have ih := reach_total_bound t S E hSE ht h
+    have := level_reach_bound t (h + 1) S E hSE ht
+    simp only [reachTotal, zerosTotal]
+    have e : (h + 1 + 1) * ((E - S) + maxLa t + 2) = (h + 1) * ((E - S) + maxLa t + 2) + ((E - S) + maxLa t + 2) := by
+      rw [Nat.add_mul, Nat.one_mul]
+    rw [e]; omega
+
+/-- `rebuilt_in_level`: every subtree that `ts_subtree_edit` does not return as the very same value
+is one of the counted nodes — it sits in the level of its depth and reaches the edit window. -/
+theorem rebuilt_in_level (p : List Nat) (t : Tree) (e : Edit) (s s' : Tree) (o : Nat)
+    (hn : noCol t = true) (hle : e.start.bytes ≤ e.old_end.bytes)
+    (hs : subtreeAt t p = some s) (hs' : subtreeAt (editTree t e) p = some s')
+    (ho : offsetAt t p = some o) (hne : s' ≠ s) :
+    (o, s) ∈ reachL (levelList t 0 p.length) e.start.bytes e.old_end.bytes := by
+  have h1 := marked_bound p t e s s' o hs hs' ho hne
+  have h2 := marked_upper p t e s s' o hn hle hs hs' ho hne
+  have hm := level_mem p t 0 s o hs ho
+  simp only [Nat.zero_add] at hm
+  unfold reachL
+  simp only [List.mem_filter, reaches, Bool.and_eq_true, decide_eq_true_eq]
+  exact ⟨hm, h2, h1⟩
+
+/-- `marked_total_bound_partial` — the part of "re-parse work after a one-token edit is
+O(depth + edit width), not O(document)" that is about `ts_subtree_edit`: for a byte-tiling tree
+without column-dependent nodes, of height `h`, every rebuilt (marked) node is among the
+`reachTotal` nodes, and there are at most `(h + 1) · (edit width + λ + 2) + Z` of those, `Z` = the
+zero-width nodes — no term grows with the size of the document.
+
+FULL STATEMENT (OPEN): the re-parse itself — lexer calls + nodes created by
+`ts_parser_parse(edited tree)` ≤ c · ((h + 1) · (w + λ + 2) + Z) for error-free, GLR-free parses of
+`Balanced` trees.  Missing: the LR driver with the real gate inside the machine (first-leaf test,
+fragile repeat spine: on the pinned tree the number of gate EVENTS is linear in the document,
+see notes/C12.md, so the full statement can hold for lexing and node creation only).  What is
+proved towards it: this theorem (marking), `unmarked_shared` (everything else is shared),
+C01 `gate_accepts` (unmarked, non-fragile, non-error candidates are accepted), C01
+`incr_eq_scratch` + `lex_calls_bound` (reused subtrees are not lexed).  `height ≤ c·log n` for
+repeat chains is JUDGED on the dumps (`balanced`). -/
+theorem marked_total_bound_partial (t : Tree) (e : Edit) (h : Nat)
+    (hn : noCol t = true) (ht : tiles t = true) (hle : e.start.bytes ≤ e.old_end.bytes) :
+    (∀ (p : List Nat) (s s' : Tree) (o : Nat), p.length ≤ h →
+        subtreeAt t p = some s → subtreeAt (editTree t e) p = some s' → offsetAt t p = some o → s' ≠ s →
+        (o, s) ∈ reachL (levelList t 0 p.length) e.start.bytes e.old_end.bytes) ∧
+    reachTotal t e.start.bytes e.old_end.bytes h ≤
+      (h + 1) * ((e.old_end.bytes - e.start.bytes) + maxLa t + 2) + zerosTotal t h :=
+  ⟨fun p s s' o _ hs hs' ho hne => rebuilt_in_level p t e s s' o hn hle hs hs' ho hne,
+   reach_total_bound t e.start.bytes e.old_end.bytes hle ht h⟩
+
 /-- `lex_calls_bound`: in every incremental run of the LR machine the number of lexer calls is at
 most the number of tokens consumed minus the tokens that lie below reused subtrees. -/
 theorem lex_calls_bound (T : C01.LR.Table) (bottom l r : Nat) (c d : C01.LR.Stack × List C01.Tok)
@@ -374,5 +446,10 @@ example : countReachKids [leaf2 1, leaf2 2, leaf2 3] 0 3 4 = 2 ∧
   intro k hk
   simp only [List.mem_cons, List.not_mem_nil, or_false] at hk
   rcases hk with rfl | rfl | rfl <;> decide
+
+/-- The global bound on the concrete tree: hypotheses hold, 3 nodes reach the edit (root + two
+leaves), the bound is `(1+1)·((4−3)+0+2) + 0 = 6`. -/
+example : tiles root3 = true ∧ noCol root3 = true ∧ height root3 = 1 ∧ maxLa root3 = 0 ∧
+    reachTotal root3 3 4 1 = 3 ∧ zerosTotal root3 1 = 0 := by decide
 
 end TsVerif.C12
